@@ -1,12 +1,20 @@
 """Two independent views of a serialised markup fragment (no Twisted import).
 
   xml_view(data)   -- the fragment wrapped in a root element and parsed by expat (XML 1.0).
-  html_view(text)  -- the fragment tokenised by the standard library html.parser.HTMLParser, with ONE
-                      replacement: where a comment ends is decided by the WHATWG tokenizer's comment
+  html_view(text)  -- the fragment tokenised by the standard library html.parser.HTMLParser, with TWO
+                      replacements.  First: where a comment ends is decided by the WHATWG tokenizer's comment
                       states (HTML Living Standard 13.2.5.43-52), because html.parser in this Python
                       ends a comment at the regular expression `--\\s*>` (it ends one at `-- >`, which
                       HTML5 does not, and it does not end one at `<!-->`, `<!--->` or `--!>`, which
                       HTML5 does).
+
+                      Second: html.parser in this Python knows only `script` and `style` as
+                      elements with text-only content and ends them at the regular expression
+                      `</\\s*name\\s*>`.  Here the content of the RCDATA elements (title, textarea), the
+                      RAWTEXT elements (style, xmp, iframe, noembed, noframes) and of script is delimited
+                      by `html5_text_element_end` (WHATWG 13.2.5.2-4 and the script data / escaped /
+                      double escaped states 13.2.5.15-31): no tag, comment or declaration is recognised
+                      in it, character references are decoded only in RCDATA.
 
 Both return a list of items
 
@@ -31,6 +39,18 @@ generated tree:
 reference serialised inside an attribute): the attribute's parsed value is parsed again as a fragment
 with the same view and compared with `items`.
 
+Element names are compared without regard to ASCII case in the HTML view (an HTML tokenizer lower-cases
+tag names) and exactly in the XML view.
+
+Text-only elements in the HTML view (HTML_TEXT_ELEMENTS): the element must come back with its own end tag
+and with nothing but character data in it.  For title/textarea that data must be the expected text; for the
+RAWTEXT elements and script an HTML tokenizer does not decode character references, so a serialiser cannot
+both escape `<` and keep the text: the text is accepted when it equals the expected text either as it stands
+or after decoding character references.  U+0000 is reported as U+FFFD in such content by an HTML tokenizer
+(normalised on both sides).  When the expected content of such an element is not plain text (a tag, comment,
+CDATA section or character reference was put into it) no verdict is given on its content; callers should not
+use the HTML view for such trees at all (a comment inside a script element changes where the element ends).
+
 What the views cannot represent is normalised away on BOTH sides, never demanded:
   * XML 1.0 end-of-line handling (2.11): CR LF and lone CR arrive as LF;
   * XML 1.0 attribute-value normalisation (3.3.3): TAB, LF, CR in an attribute value arrive as spaces
@@ -38,6 +58,7 @@ What the views cannot represent is normalised away on BOTH sides, never demanded
 The HTML view reports the characters as they are.
 """
 import re
+from html import unescape as _unescape
 from html.parser import HTMLParser
 from xml.parsers import expat
 
@@ -222,15 +243,132 @@ def html5_comment_end(raw, i):
                 state = "comment"
 
 
+HTML_RCDATA = frozenset(["title", "textarea"])
+HTML_RAWTEXT = frozenset(["style", "xmp", "iframe", "noembed", "noframes"])
+HTML_SCRIPT = frozenset(["script"])
+HTML_TEXT_ELEMENTS = HTML_RCDATA | HTML_RAWTEXT | HTML_SCRIPT
+_TAG_END = "\t\n\f\r />"
+
+
+def ascii_lower(s):
+    return "".join(chr(ord(c) + 32) if "A" <= c <= "Z" else c for c in s)
+
+
+def _alpha_run(raw, j):
+    """Index just after the run of ASCII letters starting at raw[j]."""
+    n = len(raw)
+    while j < n and ("a" <= raw[j] <= "z" or "A" <= raw[j] <= "Z"):
+        j += 1
+    return j
+
+
+def _is_end_tag(raw, j, name):
+    """raw[j:] begins with an 'appropriate end tag' for `name`: `</name` followed by white space, `/` or `>`."""
+    k = j + 2 + len(name)
+    return raw.startswith("</", j) and ascii_lower(raw[j + 2:k]) == name and k < len(raw) and raw[k] in _TAG_END
+
+
+def html5_text_element_end(raw, i, name):
+    """raw[i:] is what follows the start tag of the RCDATA / RAWTEXT / script element `name` (lower case).  Returns
+    the index of the `</` of the end tag that ends the element as the WHATWG tokenizer decides it, or -1 when the
+    element is never ended.  RCDATA and RAWTEXT: the first appropriate end tag.  script: an appropriate end tag met
+    in the script data or script data escaped states; `<!--` enters the escaped states, `<script` + delimiter inside
+    them the double escaped states (left again by `</script` + delimiter), `-->` returns to script data."""
+    n = len(raw)
+    if name not in HTML_SCRIPT:
+        j = raw.find("</", i)
+        while j >= 0:
+            if _is_end_tag(raw, j, name):
+                return j
+            j = raw.find("</", j + 2)
+        return -1
+    state = "data"
+    j = i
+    while j < n:
+        c = raw[j]
+        if state == "data":
+            if c == "<":
+                if _is_end_tag(raw, j, name):
+                    return j
+                if raw.startswith("<!--", j):
+                    state = "esc--"
+                    j += 4
+                    continue
+            j += 1
+        elif state in ("esc", "esc-", "esc--"):
+            if c == "-":
+                state = {"esc": "esc-", "esc-": "esc--", "esc--": "esc--"}[state]
+                j += 1
+            elif c == "<":
+                if _is_end_tag(raw, j, name):
+                    return j
+                k = _alpha_run(raw, j + 1)
+                if k > j + 1 and k < n and raw[k] in _TAG_END:
+                    state = "dbl" if ascii_lower(raw[j + 1:k]) == "script" else "esc"
+                    j = k + 1
+                else:
+                    state = "esc"
+                    j = max(k, j + 1)
+            elif c == ">" and state == "esc--":
+                state = "data"
+                j += 1
+            else:
+                state = "esc"
+                j += 1
+        else:
+            if c == "-":
+                state = {"dbl": "dbl-", "dbl-": "dbl--", "dbl--": "dbl--"}[state]
+                j += 1
+            elif c == "<":
+                if raw.startswith("/", j + 1):
+                    k = _alpha_run(raw, j + 2)
+                    if k < n and raw[k] in _TAG_END:
+                        state = "esc" if ascii_lower(raw[j + 2:k]) == "script" else "dbl"
+                        j = k + 1
+                    else:
+                        state = "dbl"
+                        j = k
+                else:
+                    state = "dbl"
+                    j += 1
+            elif c == ">" and state == "dbl--":
+                state = "data"
+                j += 1
+            else:
+                state = "dbl"
+                j += 1
+    return -1
+
+
 HTML5_VOID = frozenset(["area", "base", "br", "col", "embed", "hr", "img", "input", "link", "meta", "source", "track", "wbr"])
 
 
 class _Tokens(HTMLParser):
+    CDATA_CONTENT_ELEMENTS = ()        # text-only elements are delimited by html5_text_element_end (parse_starttag below)
+
     def __init__(self):
         HTMLParser.__init__(self, convert_charrefs=True)
         self.root = ("E", "r", {}, [])
         self.stack = [self.root]
         self.problem = None
+        self.opened = None
+
+    def parse_starttag(self, i):
+        self.opened = None
+        k = HTMLParser.parse_starttag(self, i)
+        tag, self.opened = self.opened, None
+        if k < 0 or tag not in HTML_TEXT_ELEMENTS:
+            return k
+        # the tokenizer is switched to the RCDATA / RAWTEXT / script data state: everything up to the element's end tag
+        # is character data (the whole document is in rawdata: html_view feeds it in one piece)
+        raw = self.rawdata
+        e = html5_text_element_end(raw, k, tag)
+        if e < 0:
+            e = len(raw)                # never ended: html_view reports the open element
+        body = raw[k:e]
+        if body:
+            self.handle_data(_unescape(body) if tag in HTML_RCDATA else body)
+        return e
 
     def _attrs(self, attrs):
         d = {}
@@ -244,6 +382,7 @@ class _Tokens(HTMLParser):
         el = ("E", tag, self._attrs(attrs), [])
         self.stack[-1][3].append(el)
         self.stack.append(el)
+        self.opened = tag
 
     def handle_startendtag(self, tag, attrs):
         # HTML5: the trailing solidus of a start tag is honoured only on void elements; on any other element it is a
@@ -336,7 +475,8 @@ def compare(expected, got, view, in_attr=False, path="/"):
             if e[2] and norm(e[1]) != g[1]:
                 return ("comment", "%s: expected comment %r, parsed %r" % (here, e[1][:80], g[1][:80]))
         else:
-            if e[1] != g[1]:
+            ename = ascii_lower(e[1]) if view == "html" else e[1]
+            if ename != g[1]:
                 return ("name", "%s: expected element %r, parsed %r" % (here, e[1], g[1]))
             if sorted(e[2]) != sorted(g[2]):
                 return ("attrs", "%s<%s>: expected attributes %r, parsed %r" % (here, e[1], sorted(e[2]), sorted(g[2])))
@@ -357,10 +497,27 @@ def compare(expected, got, view, in_attr=False, path="/"):
                     r = compare(val, sub, view, True, "%s@%s/" % (here, k))
                     if r is not None:
                         return r
-            r = compare(e[3], g[3], view, in_attr, here + "/")
+            if view == "html" and ename in HTML_TEXT_ELEMENTS:
+                r = _compare_text_element(ename, e[3], g[3], here)
+            else:
+                r = compare(e[3], g[3], view, in_attr, here + "/")
             if r is not None:
                 return r
     return None
+
+
+def _compare_text_element(name, expected, got, here):
+    """HTML view of a text-only element (see the module docstring)."""
+    exp = merge(expected)
+    if any(e[0] != "T" for e in exp):
+        return None            # markup was put into the element: no verdict on its content
+    want = (exp[0][1] if exp else "").replace("\x00", "\ufffd")
+    if len(got) > 1 or (got and got[0][0] != "T"):
+        return ("shape", "%s<%s>: a text-only element came back with %s" % (here, name, _kinds(got)))
+    have = (got[0][1] if got else "").replace("\x00", "\ufffd")
+    if have == want or (name not in HTML_RCDATA and _unescape(have) == want):
+        return None
+    return ("text", "%s<%s>: expected text %r, parsed %r" % (here, name, want[:80], have[:80]))
 
 
 def _kinds(items):
